@@ -595,7 +595,7 @@ fn dims(thorough: bool) -> Dims {
       r: vec!["one", "two", "multi"],
       u: vec!["none", "direct", "all", "any", "not", "inside", "has", "chain2", "chain3", "utilvar", "ofrule"],
       k: vec!["none", "regex", "two", "bindc", "matches"],
-      t: vec!["none", "substring", "replace", "convert", "chain2", "chain3", "fromc", "indep"],
+      t: vec!["none", "substring", "replace", "convert", "chain2", "chain3", "chain2r", "chain3r", "fromc", "indep"],
       w: vec!["none", "one", "two", "nested"],
       fc: vec!["captured", "transformed", "both"],
       ff: vec!["string", "object", "object-expand", "object-expand-matches"],
@@ -605,7 +605,7 @@ fn dims(thorough: bool) -> Dims {
       r: vec!["one", "two", "multi"],
       u: vec!["none", "direct", "all", "any", "not", "inside", "has", "chain2", "chain3", "utilvar", "ofrule"],
       k: vec!["none", "two", "bindc", "matches"],
-      t: vec!["none", "chain2", "chain3", "fromc"],
+      t: vec!["none", "chain2", "chain3", "chain2r", "chain3r", "fromc"],
       w: vec!["none", "one", "two", "nested"],
       fc: vec!["captured", "both"],
       ff: vec!["string", "object", "object-expand-matches"],
@@ -742,6 +742,18 @@ fn build_base(r: &str, u: &str, k: &str, t: &str, w: &str, fc: &str, ff: &str) -
       transform.insert("T1".into(), rep(primary));
       transform.insert("T2".into(), conv("$T1"));
       transform.insert("T3".into(), sub("$T2"));
+      tvars = vec!["T1", "T2", "T3"];
+    }
+    // the same chains with names whose ALPHABETICAL order is not the dependency order
+    "chain2r" => {
+      transform.insert("T2".into(), conv(primary));
+      transform.insert("T1".into(), json!({"substring": {"source": "$T2", "endChar": -1}}));
+      tvars = vec!["T1", "T2"];
+    }
+    "chain3r" => {
+      transform.insert("T2".into(), rep(primary));
+      transform.insert("T3".into(), conv("$T2"));
+      transform.insert("T1".into(), sub("$T3"));
       tvars = vec!["T1", "T2", "T3"];
     }
     "fromc" if k == "bindc" => {
@@ -1144,6 +1156,96 @@ fn template_names(doc: &Value) -> Vec<String> {
   names.into_iter().collect()
 }
 
+/// everything oracle 2 wants to see in the environment: the template variables, the top-level
+/// transformation keys and their sources
+fn observe_names(doc: &Value) -> Vec<String> {
+  let mut names: BTreeSet<String> = template_names(doc).into_iter().collect();
+  for (k, t) in obj(doc, "transform") {
+    names.insert(k.clone());
+    if let Some((_, src)) = transform_source(t) {
+      names.insert(source_name(src));
+    }
+  }
+  names.into_iter().collect()
+}
+
+/// reference value of every top-level transformation made of the three string operations of the
+/// alphabet (substring startChar/endChar, replace of a literal, convert upperCase), computed in
+/// DEPENDENCY order from the captured values of match `m`. `rewrite` and anything whose source has
+/// no value are left out (None).
+fn ref_transformed(doc: &Value, m: &Value) -> BTreeMap<String, (String, bool)> {
+  let tr = obj(doc, "transform");
+  let mut done: BTreeMap<String, (String, bool)> = BTreeMap::new();
+  let mut dead: BTreeSet<String> = BTreeSet::new();
+  loop {
+    let mut progress = false;
+    for (k, t) in tr {
+      if done.contains_key(k) || dead.contains(k) {
+        continue;
+      }
+      let Some((op, src)) = transform_source(t) else {
+        dead.insert(k.clone());
+        continue;
+      };
+      let name = source_name(src);
+      let multi = src.starts_with("$$$");
+      let via_transform = !multi && tr.contains_key(&name);
+      let input: Option<String> = if via_transform {
+        if dead.contains(&name) {
+          dead.insert(k.clone());
+          progress = true;
+          continue;
+        }
+        match done.get(&name) {
+          Some((v, _)) => Some(v.clone()),
+          None => continue, // not computed yet: next round
+        }
+      } else if multi {
+        m["multi"].get(&name).and_then(|x| x.as_str()).map(String::from)
+      } else {
+        m["single"].get(&name).and_then(|x| x.as_str()).map(String::from)
+      };
+      let body = &t[op];
+      let out = match (op, input) {
+        (_, None) => None,
+        ("substring", Some(v)) => {
+          let cs: Vec<char> = v.chars().collect();
+          let n = cs.len() as i64;
+          let norm = |x: Option<i64>, dflt: i64| -> i64 {
+            match x {
+              None => dflt,
+              Some(i) if i < 0 => (n + i).max(0),
+              Some(i) => i.min(n),
+            }
+          };
+          let a = norm(body.get("startChar").and_then(|x| x.as_i64()), 0);
+          let b = norm(body.get("endChar").and_then(|x| x.as_i64()), n);
+          Some(if a < b { cs[a as usize..b as usize].iter().collect() } else { String::new() })
+        }
+        ("replace", Some(v)) => match (body["replace"].as_str(), body["by"].as_str()) {
+          (Some(pat), Some(by)) if pat.chars().all(|c| c.is_ascii_alphanumeric()) && !by.contains('$') => Some(v.replace(pat, by)),
+          _ => None,
+        },
+        ("convert", Some(v)) if body["toCase"] == "upperCase" => Some(v.to_uppercase()),
+        _ => None,
+      };
+      match out {
+        Some(v) => {
+          done.insert(k.clone(), (v, via_transform));
+        }
+        None => {
+          dead.insert(k.clone());
+        }
+      }
+      progress = true;
+    }
+    if !progress {
+      break;
+    }
+  }
+  done
+}
+
 /// judge one base document's observation; returns violations (sig, detail)
 fn judge_base(doc: &Value, resp: &Value, bound: Option<&[String]>) -> Result<Vec<(String, Value)>, String> {
   let mut v = vec![];
@@ -1172,6 +1274,15 @@ fn judge_base(doc: &Value, resp: &Value, bound: Option<&[String]>) -> Result<Vec
         if !present {
           v.push((format!("fix-output:{form}:variable-of-a-successful-match-has-no-value"), json!({"variable": n, "env": m})));
         }
+      }
+    }
+    // transformed values: each equals its operation applied to its source's value
+    for (k, (want, via_transform)) in ref_transformed(doc, m) {
+      let got = m["transformed"].get(&k).and_then(|x| x.as_str());
+      if got != Some(want.as_str()) {
+        let op = transform_source(&obj(doc, "transform")[&k]).map(|x| x.0).unwrap_or("?");
+        let dep = if via_transform { ":source-is-a-transformation" } else { "" };
+        v.push((format!("transformed-value:{op}{dep}:differs-from-operation-applied-to-source"), json!({"variable": k, "want": want, "got": got, "env": m})));
       }
     }
     for (what, template, got) in [("fix-output", tpl, &m["fix"]), ("message-output", doc["message"].as_str().unwrap_or(""), &m["message"])] {
@@ -1251,7 +1362,7 @@ fn replay(path: &std::path::Path) -> ! {
   let mut w = Worker::new();
   println!("document: {doc}\nsource:   {src:?}");
   let bad = if case["oracle"] == 2 {
-    let names = template_names(doc);
+    let names = observe_names(doc);
     match w.ask(&doc.to_string(), Some(src), &names) {
       Err(how) => {
         println!("observed: child died ({how}); expected: fix and message equal the reference expansion");
@@ -1324,7 +1435,7 @@ fn main() {
       defects.lock().unwrap().push(format!("reference calls base document inconsistent {tags:?}: {} {}", b.label, b.doc));
       return;
     }
-    let names = template_names(&b.doc);
+    let names = observe_names(&b.doc);
     match w.ask(&b.doc.to_string(), Some(&b.src), &names) {
       Err(how) => rep.violation(&format!("base-crash:{how}"), json!({"oracle": 2, "base": b.label, "doc": b.doc, "source": b.src})),
       Ok(resp) => match judge_base(&b.doc, &resp, Some(&b.bound)) {
